@@ -102,7 +102,11 @@ fn f64_to_bits_for_normalized_value(
 
     // create int_bits msb -> lsb
     // e.g. int_bits for 4 will be [1, 0, 0], but we remove the 1., so it will be [0, 0]
-    let int_bits = f64_int_bits(absolute_value);
+    // The integer part is converted through an i64. A bigger value is first scaled
+    // down into that range; the bits dropped by that are zeroes and are added back.
+    let (scaled_value, dropped_zero_bits) = f64_scale_to_i64_range(absolute_value);
+    let mut int_bits = f64_int_bits(scaled_value);
+    int_bits.resize(int_bits.len() + dropped_zero_bits, false);
     let fraction_bits = f64_fractional_bits(absolute_value);
 
     let exponent_with_bias = (int_bits.len() as i32) + DOUBLE_BIAS - (initial_exponent as i32);
@@ -128,6 +132,20 @@ fn f64_to_bits_for_normalized_value(
     }
     debug_assert_eq!(DOUBLE_BITS, bits.len());
     bits
+}
+
+/// Halves the given value until it is less than 2^63, so that its integer part fits in an i64.
+/// Returns the scaled value and the number of times it was halved.
+/// A value of 2^63 or more has no fractional part and its low bits are zero,
+/// therefore halving it is exact.
+fn f64_scale_to_i64_range(absolute_value: f64) -> (f64, usize) {
+    let mut scaled_value = absolute_value;
+    let mut halvings: usize = 0;
+    while scaled_value >= 9223372036854775808.0 {
+        scaled_value /= 2.0;
+        halvings += 1;
+    }
+    (scaled_value, halvings)
 }
 
 fn f64_int_bits(absolute_value: f64) -> Vec<bool> {
